@@ -22,6 +22,7 @@ type finding struct {
 	Tags   string `json:"tags"`   // token tags of the step
 	Grid   bool   `json:"grid"`   // the case ran on the grid buffer
 	Alt    bool   `json:"alt"`    // the alternate buffer was active after the step
+	Gmode  bool   `json:"gmode"`  // the case ran in grapheme mode
 	Detail string `json:"detail"`
 }
 
@@ -171,6 +172,75 @@ func (im *impl) checkAPI(snap *te.VerifSnap, step int, tags string, out *[]findi
 			}
 		}
 	}
+	// sub-range reads (what a frontend repainting an announced region uses): StyledLine(x,n,y)
+	// shows exactly the cells x..x+n-1 of the row, a wide character cut by either edge as blanks;
+	// StyledLines(region) is StyledLine row by row
+	if !im.gmode && w >= 2 {
+		sub := func(cs []cell, x, n int) []cell {
+			out := make([]cell, n)
+			copy(out, cs[x:x+n])
+			for i := 0; i < n && out[i].cont; i++ { // head lies left of the range
+				out[i] = cell{text: " ", width: 1, sty: out[i].sty}
+			}
+			for i := 0; i < n; i++ { // a head whose continuation cells lie right of the range
+				if !out[i].cont && out[i].width > 1 && i+out[i].width > n {
+					for k := i; k < n; k++ {
+						out[k] = cell{text: " ", width: 1, sty: out[k].sty}
+					}
+				}
+			}
+			return out
+		}
+		subFinding := func(clause, detail string) {
+			for _, pr := range []string{"C02", "C03", "C11"} {
+				add(pr, clause, detail)
+			}
+			if s.Grid {
+				add("C20", clause, detail)
+			}
+		}
+		step7 := step*7 + 3
+		ranges := [][2]int{{1, w - 1}, {0, w - 1}, {1, w - 2}, {step7 % w, 1 + (step7/3)%(w-step7%w)}}
+		for y := 0; y < h; y++ {
+			full := cellsOfVerif(s.Rows[y].Cells)
+			if len(full) != w {
+				continue
+			}
+			for _, rg := range ranges {
+				x, n := rg[0], rg[1]
+				if n < 1 || x+n > w {
+					continue
+				}
+				sl := im.term.StyledLine(x, n, y)
+				got := expandLine(sl, false)
+				want := sub(full, x, n)
+				if rowString(got) != rowString(want) {
+					subFinding("api-subrange", fmt.Sprintf("row %d: StyledLine(%d,%d,%d) shows %s, the cells are %s", y, x, n, y, rowString(got), rowString(want)))
+					break
+				}
+			}
+		}
+		x1, x2 := 1, w-1
+		if step%2 == 0 {
+			x1, x2 = step7%w, w
+		}
+		y1 := step % h
+		if x1 < x2 {
+			ls := im.term.StyledLines(te.Region{X: x1, Y: y1, X2: x2, Y2: h})
+			if len(ls) != h-y1 {
+				subFinding("api-styledlines", fmt.Sprintf("StyledLines({%d,%d,%d,%d}) returned %d rows", x1, y1, x2, h, len(ls)))
+			} else {
+				for k, l := range ls {
+					one := im.term.StyledLine(x1, x2-x1, y1+k)
+					if rowString(expandLine(l, false)) != rowString(expandLine(one, false)) {
+						subFinding("api-styledlines", fmt.Sprintf("StyledLines({%d,%d,%d,%d}) row %d shows %s, StyledLine(%d,%d,%d) shows %s", x1, y1, x2, h, y1+k,
+							rowString(expandLine(l, false)), x1, x2-x1, y1+k, rowString(expandLine(one, false))))
+						break
+					}
+				}
+			}
+		}
+	}
 	// C10: most recent notifications equal the actual values
 	lc := [2]int{0, 0}
 	if im.fe.haveCursor {
@@ -238,6 +308,12 @@ func (im *impl) checkEvents(snap *te.VerifSnap, evFrom int, wrFrom int, step int
 	if im.fe.cbPanic != "" {
 		*out = append(*out, finding{Step: step, Kind: "panic", Prop: "C01", Clause: "accessor-in-callback", Tags: tags, Detail: im.fe.cbPanic})
 		im.fe.cbPanic = ""
+	}
+	if im.fe.staleCalls > 0 {
+		for _, pr := range []string{"C10", "C17"} {
+			add(pr, "replaced-frontend-called", fmt.Sprintf("%d callback(s) went to a frontend that SetFrontend had replaced", im.fe.staleCalls))
+		}
+		im.fe.staleCalls = 0
 	}
 	if im.fe.lockFree > 0 {
 		add("C15", "callback-unlocked", fmt.Sprintf("%d callback(s) ran while the terminal lock was free", im.fe.lockFree))
